@@ -11,6 +11,7 @@ import queue as _queue
 import random
 import sys
 import threading
+import time as _time
 import traceback
 
 _real_Thread = threading.Thread
@@ -29,6 +30,10 @@ class DeadlockError(ControlException):
 
 class StepBudget(ControlException):
     pass
+
+
+class WallClock(StepBudget):
+    """generous wall-clock watchdog: its firing is inconclusive, never a verdict"""
 
 
 class Task:
@@ -96,7 +101,7 @@ class Task:
 
 class Sched:
     def __init__(self, seed=0, strategy="rr", p=0.2, pct_depth=3, pct_horizon=4000, max_steps=400_000,
-                 replay=None, log_len=400):
+                 replay=None, log_len=400, wall_s=60):
         self.rng = random.Random(seed)
         self.seed = seed
         self.strategy = strategy
@@ -127,6 +132,7 @@ class Sched:
         self.tasks.append(self.main)
         self.local.task = self.main
         self.current = self.main
+        self.wall_deadline = _time.time() + wall_s if wall_s else None
         self.hooks = []             # callables run at every scheduling step (monitors), preemption disabled
 
     # ------------------------------------------------------------------ bookkeeping
@@ -246,6 +252,9 @@ class Sched:
             if self.steps > self.max_steps:
                 self.max_steps += 10 ** 9
                 raise StepBudget("step budget exhausted at virtual time %.3f" % self.now)
+            if self.wall_deadline is not None and (self.steps & 255) == 0 and _time.time() > self.wall_deadline:
+                self.wall_deadline = None
+                raise WallClock("wall-clock watchdog fired at step %d, virtual time %.3f" % (self.steps, self.now))
             nxt = self.pick(None if dying else me)
         except ControlException as e:
             if me is self.main and not dying:
